@@ -322,4 +322,9 @@ def r6(ctx):
     # client side: _encode_packet re-raises (the caller decides) - packing itself cannot raise for admitted messages (R4)
 
 
-RULES = [("C09.R1", r1), ("C09.R2", r2), ("C09.R3", r3), ("C09.R4", r4), ("C09.R5", r5), ("C09.R6", r6)]
+def r_idioms(ctx):
+    from .common import repo_idioms
+    repo_idioms(ctx, "C09.R7", ('connection', 'server', 'twisted'))
+
+
+RULES = [("C09.R1", r1), ("C09.R2", r2), ("C09.R3", r3), ("C09.R4", r4), ("C09.R5", r5), ("C09.R6", r6), ("C09.R7", r_idioms)]
